@@ -1,8 +1,11 @@
 package props
 
 import (
+	"bytes"
 	"fmt"
 	"math/big"
+	"os"
+	"path/filepath"
 	"strings"
 	"time"
 
@@ -111,6 +114,30 @@ func main(a, b []byte) (byte, byte, byte, byte, uint16, uint16) {
 }
 `, func(r *vrt.Rng) ([]string, []string) {
 		return []string{"0x" + fmt.Sprintf("%x", r.Bytes(r.Range(2, 4)))}, []string{"0x" + fmt.Sprintf("%x", r.Bytes(r.Range(5, 11)))}
+	}},
+	// a variable merged after an if is first used inside a later branch that
+	// returns, and computed on after that if (the phi of the merge must be
+	// defined before both)
+	{"merged-variable-first-used-in-a-returning-branch", `package main
+func main(a int8, b int8) (int8, int8) {
+	x := a
+	y := b
+	if b > 5 {
+		x--
+	} else {
+		y = y + a
+	}
+	if a > 2 {
+	} else {
+		if x > b {
+			y++
+		}
+		return b, y * 3
+	}
+	return x + 1, y - x
+}
+`, func(r *vrt.Rng) ([]string, []string) {
+		return []string{fmt.Sprint(r.Intn(256) - 128)}, []string{fmt.Sprint(r.Intn(256) - 128)}
 	}},
 	// the evaluator's input wires (through one OT batch) straddle wire id 65536
 	{"evaluator-input-across-65536", `package main
@@ -283,10 +310,58 @@ func c05ManyValues(r *vrt.Rng) (src string, gIn, eIn []string) {
 	return b.String(), []string{"0x" + fmt.Sprintf("%x", r.Bytes(N*W/8))}, []string{"0x" + r.Big(W).Text(16)}
 }
 
+// c05NativeProgram draws a program of the "native circuit" family: a circuit
+// file generated by the harness (all five gate types, outputs that also feed
+// later gates, the same wire on both inputs of a gate; Bristol or the native
+// binary format) is written next to a main.mpcl that calls it twice through
+// native("n.circ", ...) - the second time on other inputs, so the cached
+// circuit is streamed again - and combines the results. Returns the directory.
+func c05NativeProgram(r *vrt.Rng) (dir, file, src string, gIn, eIn []string, err error) {
+	wa, wb := vrt.Pick(r, []int{1, 3, 8, 8, 16}), vrt.Pick(r, []int{1, 4, 8, 8, 16})
+	wr := vrt.Pick(r, []int{1, 2, 8, 8, 13})
+	sh := refc.Shape{Args: []int{wa, wb}, Outs: []int{wr}, Gates: r.Range(wr+2, 90), Kind: r.Intn(5), SameP: 8, Named: true}
+	if r.Intn(3) == 0 {
+		sh.Outs = []int{wr, vrt.Pick(r, []int{1, 8})}
+	}
+	c := refc.Gen(r, sh)
+	if dir, err = os.MkdirTemp("", "c05n-"); err != nil {
+		return
+	}
+	name := "n.circ"
+	var buf bytes.Buffer
+	if r.Bool() {
+		name = "n.mpclc"
+		err = c.Marshal(&buf)
+	} else {
+		err = c.MarshalBristol(&buf)
+	}
+	if err != nil {
+		return
+	}
+	if err = os.WriteFile(filepath.Join(dir, name), buf.Bytes(), 0o600); err != nil {
+		return
+	}
+	var b strings.Builder
+	var rets []string
+	for _, o := range sh.Outs {
+		rets = append(rets, fmt.Sprintf("uint%d", o))
+	}
+	fmt.Fprintf(&b, "package main\n\nfunc main(a uint%d, b uint%d) (%s, uint%d) {\n", wa, wb, strings.Join(rets, ", "), sh.Outs[0])
+	if len(sh.Outs) == 1 {
+		fmt.Fprintf(&b, "\tx := native(\"%s\", a, b)\n\ty := native(\"%s\", a ^ %d, b + %d)\n\treturn x, x ^ y\n}\n", name, name, r.Intn(1<<uint(min(wa, 6))), r.Intn(1<<uint(min(wb, 6))))
+	} else {
+		fmt.Fprintf(&b, "\tx, p := native(\"%s\", a, b)\n\ty, q := native(\"%s\", a ^ %d, b + %d)\n\treturn x, p ^ q, x ^ y\n}\n", name, name, r.Intn(1<<uint(min(wa, 6))), r.Intn(1<<uint(min(wb, 6))))
+	}
+	src = b.String()
+	file = filepath.Join(dir, "main.mpcl")
+	err = os.WriteFile(file, []byte(src), 0o600)
+	return dir, file, src, []string{"0x" + r.Big(wa).Text(16)}, []string{"0x" + r.Big(wb).Text(16)}, err
+}
+
 func init() {
 	vrt.Register(&vrt.Prop{
 		ID: "C05", Level: "exploration",
-		Rule: "case = a two-party program (generated with aliasing bias: constant shifts, casts, array element and struct field updates, arrays/structs as arguments; or a PRNG-parameterised alias-family program (chains and fans of constant shifts, same-width casts, element stores and reads consumed in a PRNG order so that aliases die at different times); or a many-values-family program (an unrolled loop of 150-500 iterations with lag variables: thousands of SSA values with interleaved lifetimes); or a store-family program: literals, scalars and expressions narrower/equal/wider than the slot stored into array elements and struct fields, whole array and fields returned; or a fixture with unsized main(a, b uint) / []byte signatures instantiated from the exchanged input sizes, one keeping > 65535 wire ids live, one whose evaluator input wires straddle wire id 65536) run in streaming mode (Compiler.Stream against circuit.StreamEvaluator over a fragmenting tap; OT in {CO, COT}) on 1-3 boundary/random input pairs. " +
+		Rule: "case = a two-party program (generated with aliasing bias: constant shifts, casts, array element and struct field updates, arrays/structs as arguments; or a PRNG-parameterised alias-family program (chains and fans of constant shifts, same-width casts, element stores and reads consumed in a PRNG order so that aliases die at different times); or a native-circuit-family program (a harness-generated circuit file with all gate types, called twice through native()); or a many-values-family program (an unrolled loop of 150-500 iterations with lag variables: thousands of SSA values with interleaved lifetimes); or a store-family program: literals, scalars and expressions narrower/equal/wider than the slot stored into array elements and struct fields, whole array and fields returned; or a fixture with unsized main(a, b uint) / []byte signatures instantiated from the exchanged input sizes, one keeping > 65535 wire ids live, one whose evaluator input wires straddle wire id 65536) run in streaming mode (Compiler.Stream against circuit.StreamEvaluator over a fragmenting tap; OT in {CO, COT}) on 1-3 boundary/random input pairs. " +
 			"Oracle: no error, no stall, both parties' values identical and equal to the reference evaluation of the whole compiled circuit on the same inputs, output types and sizes identical to the circuit's. Distinct = hash(program, inputs).",
 		Assumptions: []string{"refc on the whole compiled circuit is the specification (C03 relates that circuit to the program)"},
 		NumCases: func(t string) int {
@@ -324,6 +399,7 @@ func runC05One(cs *vrt.Case) {
 	var what string
 	var prog *mpclgen.Program
 	var vec []mpclgen.Val
+	srcFile := "" // set for programs that live in a directory (native circuits next to them)
 	npairs := 2
 	if k := cs.Idx % 10; k < len(c05Fixtures) && (k < 2 || cs.Idx%30 == k) {
 		f := c05Fixtures[k]
@@ -341,6 +417,18 @@ func runC05One(cs *vrt.Case) {
 	} else if k == 4 {
 		src, gIn, eIn = c05ManyValues(r)
 		what = "many-values family"
+		npairs = 1
+	} else if k == 3 && cs.Idx%30 != 3 || k == 2 && cs.Idx%20 == 12 {
+		dir, file, s, g, e, err := c05NativeProgram(r)
+		if dir != "" {
+			defer os.RemoveAll(dir)
+		}
+		if err != nil {
+			cs.Inconc("native family: " + err.Error())
+			return
+		}
+		src, gIn, eIn, srcFile = s, g, e, file
+		what = "native-circuit family"
 		npairs = 1
 	} else {
 		prog = mpclgen.Generate(r, c05GenCfg)
@@ -363,6 +451,9 @@ func runC05One(cs *vrt.Case) {
 			return
 		}
 		c, err, pan := compileMPCL(src, utils.NewParams(), [][]int{gs, es})
+		if srcFile != "" {
+			c, err, pan = compileMPCLFile(srcFile, utils.NewParams(), [][]int{gs, es})
+		}
 		desc := map[string]any{"program": src, "kind": what, "g": trunc(strings.Join(gIn, " "), 200), "e": trunc(strings.Join(eIn, " "), 200)}
 		cs.SetSample(map[string]any{"kind": what, "program": trunc(src, 800), "g": trunc(strings.Join(gIn, " "), 100), "e": trunc(strings.Join(eIn, " "), 100)})
 		if pan != nil || err != nil {
@@ -394,7 +485,7 @@ func runC05One(cs *vrt.Case) {
 		if strings.Contains(what, "across-65536") {
 			otk = 1 // 65600 base OTs with CO take minutes
 		}
-		o := runStream(r, src, nil, gIn, eIn, yaoOpts{ot: otk, kind: 2, stallWin: 30 * time.Second})
+		o := runStream(r, src, nil, gIn, eIn, yaoOpts{ot: otk, kind: 2, stallWin: 30 * time.Second, srcName: srcFile})
 		cs.Evals++
 		if pi := firstPanic(o.g, o.e); pi != nil {
 			if pi.InMPC {
